@@ -11,6 +11,11 @@
 //	          (Broadcast) are replaced: a "node" is a real plan over the rows of one shard replica.
 //	    vec   pkg/query/vectorized/measure  BatchAggregation All/Map/Reduce, frame.Encode, ReduceRawFrames,
 //	          ApplyTopToReduce
+//	-mode ord  -in behaviours.ndjson   family "ord": the measure's entity is (k1,k2), every TLC state is one ARRIVAL order of
+//	                                   points; GROUP BY k1 / k2 / (k1,k2) with the method Analyze picks over the scan order
+//	                                   it asks the engine for, client pages (limit, offset) and TOP-n over the groups, on the
+//	                                   stand-alone row plan and through DistributedAnalyze with data nodes that run the
+//	                                   request they are sent (limit included), as measureInternalQueryProcessor.Rev does
 //	-mode top  -in behaviours.ndjson   TopQueue (measure_top.go) step by step, the top plan, the columnar BatchTop
 //	-mode extremes -n N                int64 extremes: partition invariance under a wrap-around-aware reference
 package main
@@ -37,6 +42,7 @@ import (
 	modelv1 "github.com/apache/skywalking-banyandb/api/proto/banyandb/model/v1"
 	"github.com/apache/skywalking-banyandb/banyand/verifharness/vlib"
 	"github.com/apache/skywalking-banyandb/pkg/bus"
+	"github.com/apache/skywalking-banyandb/pkg/index"
 	"github.com/apache/skywalking-banyandb/pkg/query/aggregation"
 	"github.com/apache/skywalking-banyandb/pkg/query/executor"
 	"github.com/apache/skywalking-banyandb/pkg/query/logical"
@@ -73,6 +79,7 @@ type config struct {
 	intMax, intMin int64
 	layers         map[string]bool
 	seed           int64
+	ranks          int // family "ord": rankings tried per client page (0: all)
 }
 
 var cfg config
@@ -480,20 +487,60 @@ func fieldVal(v int64, float bool) *modelv1.FieldValue {
 	return &modelv1.FieldValue{Value: &modelv1.FieldValue_Int{Int: &modelv1.Int{Value: v}}}
 }
 
-// storage stand-in: every row is one series with one point, tagged with the shard it lives in
+// storage stand-in.  Entity (id): every row is one series with one point.  Entity (k1,k2): the rows with the same
+// (k1,k2) are the points of one series.  The scan delivers what the engines deliver (banyand/measure queryResult.Less):
+// time order (= arrival order) unless the plan asks for index.OrderByTypeSeries, then series by series in the order
+// of the series-index answer - taken to be the creation order (first arrival), NOT an order of the entity values -
+// and by time inside a series.
 type fakeEC struct {
-	rows  []row
-	float bool
+	rows       []row
+	float      bool
+	entityKeys bool
 }
 
-func (e *fakeEC) Query(_ context.Context, _ model.MeasureQueryOptions) (model.MeasureQueryResult, error) {
+func (e *fakeEC) seriesOf(r row) int {
+	if !e.entityKeys {
+		return r.id
+	}
+	for _, x := range e.rows {
+		if x.g1 == r.g1 && x.g2 == r.g2 {
+			return x.id // the series is named after its first point
+		}
+	}
+	return r.id
+}
+
+// spec BySeries
+func bySeries(rows []row) []row {
+	out := make([]row, 0, len(rows))
+	done := map[[2]int]bool{}
+	for _, r := range rows {
+		if done[r.key()] {
+			continue
+		}
+		done[r.key()] = true
+		for _, x := range rows {
+			if x.key() == r.key() {
+				out = append(out, x)
+			}
+		}
+	}
+	return out
+}
+
+func (e *fakeEC) Query(_ context.Context, opts model.MeasureQueryOptions) (model.MeasureQueryResult, error) {
 	if len(e.rows) == 0 {
 		return nil, nil // the engines return a nil result for "nothing found"
 	}
-	return &fakeResult{rows: e.rows, float: e.float}, nil
+	rows := e.rows
+	if opts.Order != nil && opts.Order.Type == index.OrderByTypeSeries && e.entityKeys {
+		rows = bySeries(rows)
+	}
+	return &fakeResult{ec: e, rows: rows, float: e.float}, nil
 }
 
 type fakeResult struct {
+	ec    *fakeEC
 	rows  []row
 	i     int
 	float bool
@@ -506,7 +553,7 @@ func (r *fakeResult) Pull() *model.MeasureResult {
 	x := r.rows[r.i]
 	r.i++
 	return &model.MeasureResult{
-		SID:        common.SeriesID(x.id + 1),
+		SID:        common.SeriesID(r.ec.seriesOf(x) + 1),
 		Timestamps: []int64{int64(1700000000+x.id) * int64(time.Second)},
 		Versions:   []int64{1},
 		ShardIDs:   []common.ShardID{common.ShardID(x.s)},
@@ -524,11 +571,14 @@ func (r *fakeResult) Release() {}
 var timeRange = &modelv1.TimeRange{Begin: timestamppb.New(time.Unix(1600000000, 0)), End: timestamppb.New(time.Unix(1800000000, 0))}
 
 type query struct {
-	f       int // aggregation function index, -1 none
+	by      []string // group-by tags, nil: (k1,k2)
+	f       int      // aggregation function index, -1 none
 	grouped bool
 	topN    int // 0 none
 	bottom  bool
 	withID  bool
+	limit   uint32 // 0: not set by the client (the servers default to 100)
+	offset  uint32
 }
 
 func (q query) request() *measurev1.QueryRequest {
@@ -541,9 +591,14 @@ func (q query) request() *measurev1.QueryRequest {
 		TagProjection:   &modelv1.TagProjection{TagFamilies: []*modelv1.TagProjection_TagFamily{{Name: "default", Tags: tags}}},
 		FieldProjection: &measurev1.QueryRequest_FieldProjection{Names: []string{"v"}},
 	}
+	req.Limit, req.Offset = q.limit, q.offset
 	if q.grouped {
+		by := q.by
+		if by == nil {
+			by = []string{"k1", "k2"}
+		}
 		req.GroupBy = &measurev1.QueryRequest_GroupBy{
-			TagProjection: &modelv1.TagProjection{TagFamilies: []*modelv1.TagProjection_TagFamily{{Name: "default", Tags: []string{"k1", "k2"}}}},
+			TagProjection: &modelv1.TagProjection{TagFamilies: []*modelv1.TagProjection_TagFamily{{Name: "default", Tags: by}}},
 			FieldName:     "v",
 		}
 	}
@@ -560,34 +615,34 @@ func (q query) request() *measurev1.QueryRequest {
 	return req
 }
 
-// a data node (or the stand-alone server): banyand/query/processor.go executeMeasurePlan + collectInternalDataPoints
-func runNode(req *measurev1.QueryRequest, emitPartial bool, rows []row, float, entityKeys bool) (out []*measurev1.InternalDataPoint, err error) {
+// a data node (or the stand-alone server): banyand/query/processor.go executeMeasurePlan + collectInternalDataPoints.
+// The request is planned as it is received - its limit / offset included (measureInternalQueryProcessor.Rev hands
+// internalRequest.Request to Analyze unchanged).
+func runNode(req *measurev1.QueryRequest, emitPartial bool, rows []row, float, entityKeys bool) ([]*measurev1.InternalDataPoint, error) {
+	out, _, err := runNodePlan(req, emitPartial, rows, float, entityKeys)
+	return out, err
+}
+
+func runNodePlan(req *measurev1.QueryRequest, emitPartial bool, rows []row, float, entityKeys bool) (out []*measurev1.InternalDataPoint, planStr string, err error) {
 	defer func() {
 		if r := recover(); r != nil {
 			err = fmt.Errorf("panic: %v", r)
 		}
 	}()
 	ms := measureSchema(float, entityKeys)
-	if entityKeys { // the engines deliver series by series
-		rows = append([]row(nil), rows...)
-		sort.SliceStable(rows, func(i, j int) bool {
-			if rows[i].g1 != rows[j].g1 {
-				return rows[i].g1 < rows[j].g1
-			}
-			return rows[i].g2 < rows[j].g2
-		})
-	}
 	s, err := lm.BuildSchema(ms, nil)
 	if err != nil {
-		return nil, err
+		return nil, "", err
 	}
-	plan, err := lm.Analyze(req, []*commonv1.Metadata{ms.Metadata}, []logical.Schema{s}, []executor.MeasureExecutionContext{&fakeEC{rows: rows, float: float}}, emitPartial)
+	plan, err := lm.Analyze(req, []*commonv1.Metadata{ms.Metadata}, []logical.Schema{s},
+		[]executor.MeasureExecutionContext{&fakeEC{rows: rows, float: float, entityKeys: entityKeys}}, emitPartial)
 	if err != nil {
-		return nil, err
+		return nil, "", err
 	}
+	planStr = plan.String()
 	it, err := plan.(executor.MeasureExecutable).Execute(context.Background())
 	if err != nil {
-		return nil, err
+		return nil, planStr, err
 	}
 	for it.Next() {
 		cur := it.Current()
@@ -595,7 +650,7 @@ func runNode(req *measurev1.QueryRequest, emitPartial bool, rows []row, float, e
 			out = append(out, cur[0])
 		}
 	}
-	return out, it.Close()
+	return out, planStr, it.Close()
 }
 
 type future struct{ m bus.Message }
@@ -612,6 +667,9 @@ type cluster struct {
 	float      bool
 	entityKeys bool
 	nodeCalls  int
+	nodeLimits []uint32 // the limit / offset of the request every node was sent
+	nodeOffset []uint32
+	nodeSent   []int // data points in every node's answer
 }
 
 func (c *cluster) Broadcast(_ time.Duration, _ bus.Topic, msg bus.Message) ([]bus.Future, error) {
@@ -621,6 +679,8 @@ func (c *cluster) Broadcast(_ time.Duration, _ bus.Topic, msg bus.Message) ([]bu
 	}
 	var out []bus.Future
 	for _, n := range c.nodes {
+		c.nodeLimits = append(c.nodeLimits, ireq.Request.GetLimit())
+		c.nodeOffset = append(c.nodeOffset, ireq.Request.GetOffset())
 		data, ok := c.cache[n[0]]
 		if !ok {
 			dps, err := runNode(ireq.Request, ireq.AggReturnPartial, c.rowsOf(n[0]), c.float, c.entityKeys)
@@ -639,6 +699,7 @@ func (c *cluster) Broadcast(_ time.Duration, _ bus.Topic, msg bus.Message) ([]bu
 		if err := proto.Unmarshal(data, resp); err != nil {
 			return nil, err
 		}
+		c.nodeSent = append(c.nodeSent, len(resp.DataPoints))
 		out = append(out, future{m: bus.NewMessage(bus.MessageID(1), resp)})
 	}
 	return out, nil
@@ -1001,6 +1062,428 @@ func checkPlans(sk *sink, b, step int, a *accs, obs map[string]any, pv pkgVerdic
 		sk.inc("plan_executions")
 		sk.add("plan_executions", c.nodeCalls)
 		checkGroupTop(sk, b, step, "plan-distributed-group-top", dps, want, ges, fmt.Sprintf("%s %d of SUM by (k1,k2), %s", vlib.Str(m, "dir"), q.topN, ctxOf(c.nodes)))
+	}
+}
+
+// ---------------------------------------------------------------------------------------------
+// family "ord": entity (k1,k2), arrival orders, GROUP BY on a part of the entity, client pages
+
+type byExpect struct {
+	name string // k1 | k2 | k1k2
+	tags []string
+	ges  []groupExpect // g1 / g2 = 0: the tag is not part of the key
+}
+
+// the group a returned row belongs to: only the group-by tags count (a row also carries the other projected tags of
+// the group's first point)
+func keyBy(dp *measurev1.DataPoint, by []string) [2]string {
+	var k [2]string
+	for _, t := range by {
+		if t == "k1" {
+			k[0] = tagOf(dp, "k1")
+		} else {
+			k[1] = tagOf(dp, "k2")
+		}
+	}
+	return k
+}
+
+func (ge groupExpect) keyStr() [2]string {
+	var k [2]string
+	if ge.g1 > 0 {
+		k[0] = cfg.k1[ge.g1-1]
+	}
+	if ge.g2 > 0 {
+		k[1] = cfg.k2[ge.g2-1]
+	}
+	return k
+}
+
+func fmtKey(k [2]string, by []string) string {
+	var parts []string
+	for _, t := range by {
+		if t == "k1" {
+			parts = append(parts, "k1="+k[0])
+		} else {
+			parts = append(parts, "k2="+k[1])
+		}
+	}
+	return "(" + strings.Join(parts, ",") + ")"
+}
+
+func fmtRows(rows []row) string {
+	var sb strings.Builder
+	sb.WriteString("[")
+	for i, r := range rows {
+		if i > 0 {
+			sb.WriteString(" ")
+		}
+		fmt.Fprintf(&sb, "(%s,%s)@shard%d=%d", cfg.k1[r.g1-1], cfg.k2[r.g2-1], r.s, r.v)
+	}
+	sb.WriteString("]")
+	return sb.String()
+}
+
+// n rows, every one a different group of the reference with the reference's value over ALL the rows of the group.
+// n = len(ges) unless a client page cuts the answer (which groups a page without ranking holds is not specified).
+func checkGroupPage(sk *sink, b, step int, sig string, f int, by []string, dps []*measurev1.DataPoint, ges []groupExpect, n int, ctxOf func() string) bool {
+	sk.inc("plan_answers_compared")
+	want := map[[2]string]groupExpect{}
+	for _, ge := range ges {
+		want[ge.keyStr()] = ge
+	}
+	seen := map[[2]string]int{}
+	for _, dp := range dps {
+		seen[keyBy(dp, by)]++
+	}
+	for _, dp := range dps {
+		if k := keyBy(dp, by); seen[k] > 1 {
+			sk.violate(b, step, sig+"-groups-split", "%s: group %s is returned %d times, each row with the aggregate of a part of its rows (%d distinct key tuples, %d rows returned): %s",
+				ctxOf(), fmtKey(k, by), seen[k], len(ges), len(dps), describe(dps))
+			return false
+		}
+	}
+	if len(dps) != n {
+		sk.violate(b, step, sig+"-cardinality", "%s: %d distinct key tuples, %d rows expected, %d returned: %s", ctxOf(), len(ges), n, len(dps), describe(dps))
+		return false
+	}
+	for _, dp := range dps {
+		k := keyBy(dp, by)
+		ge, ok := want[k]
+		if !ok {
+			sk.violate(b, step, sig+"-unknown-group", "%s: group %s is not a key tuple of the selected rows: %s", ctxOf(), fmtKey(k, by), describe(dps))
+			return false
+		}
+		v, isInt := fieldInt(dp)
+		if !isInt || !ge.e.okInt(f, v) {
+			if f == fMEAN && v == 1 && ge.e.hi < 1 { // the echo of the package-level MEAN floor
+				sk.inc("propagated_mismatches")
+				continue
+			}
+			sk.violate(b, step, sig, "%s: %s of group %s = %d, reference over all its rows %d (an aggregate of a part of the group's rows): %s",
+				ctxOf(), fnames[f], fmtKey(k, by), v, ge.e.r[f], describe(dps))
+			return false
+		}
+	}
+	return true
+}
+
+// the values in rank order, every row a different group that really has that SUM
+func checkGroupTopBy(sk *sink, b, step int, sig string, by []string, dps []*measurev1.DataPoint, want []int64, ges []groupExpect, ctxOf func() string) {
+	sk.inc("plan_answers_compared")
+	if len(dps) != len(want) {
+		sk.violate(b, step, sig, "%s: %d rows returned, want values %v: %s", ctxOf(), len(dps), want, describe(dps))
+		return
+	}
+	seen := map[[2]string]bool{}
+	for i, dp := range dps {
+		v, _ := fieldInt(dp)
+		k := keyBy(dp, by)
+		if v != want[i] {
+			sk.violate(b, step, sig, "%s: position %d is %s = %d, want values %v (the groups' SUM over all their rows, ranked, then the page): %s", ctxOf(), i, fmtKey(k, by), v, want, describe(dps))
+			return
+		}
+		if seen[k] {
+			sk.violate(b, step, sig, "%s: group %s returned twice: %s", ctxOf(), fmtKey(k, by), describe(dps))
+			return
+		}
+		seen[k] = true
+		ok := false
+		for _, ge := range ges {
+			if ge.keyStr() == k && ge.e.r[fSUM] == v {
+				ok = true
+			}
+		}
+		if !ok {
+			sk.violate(b, step, sig, "%s: group %s does not have SUM %d: %s", ctxOf(), fmtKey(k, by), v, describe(dps))
+			return
+		}
+	}
+}
+
+func groupByMethod(planStr string) string {
+	if i := strings.Index(planStr, "method="); i >= 0 {
+		m := planStr[i+len("method="):]
+		if j := strings.IndexAny(m, " ,;)"); j >= 0 {
+			m = m[:j]
+		}
+		return m
+	}
+	return "none"
+}
+
+func distinctKeys(rows []row, by []string) int {
+	set := map[[2]int]bool{}
+	for _, r := range rows {
+		var k [2]int
+		for _, t := range by {
+			if t == "k1" {
+				k[0] = r.g1
+			} else {
+				k[1] = r.g2
+			}
+		}
+		set[k] = true
+	}
+	return len(set)
+}
+
+// runs of equal key in the series-ordered scan (what a streaming group-by would see)
+func runsOf(rows []row, by []string) int {
+	n := 0
+	var prev [2]int
+	for i, r := range bySeries(rows) {
+		var k [2]int
+		for _, t := range by {
+			if t == "k1" {
+				k[0] = r.g1
+			} else {
+				k[1] = r.g2
+			}
+		}
+		if i == 0 || k != prev {
+			n++
+		}
+		prev = k
+	}
+	return n
+}
+
+func checkOrd(sk *sink, b, step int, rows []row, obs map[string]any, rnd *rand.Rand) {
+	var shards []int
+	for _, x := range vlib.List(obs, "shards") {
+		shards = append(shards, vlib.AsInt(x))
+	}
+	sort.Ints(shards)
+	rowsOf := func(s int) []row {
+		var out []row
+		for _, r := range rows {
+			if r.s == s {
+				out = append(out, r)
+			}
+		}
+		return out
+	}
+	reps := repConfigs(shards, cfg.maxRep)
+	fail := func(what string, err error) {
+		sk.inconclusive(fmt.Sprintf("behaviour %d step %d: %s: %v", b, step, what, err))
+	}
+	bys := map[string]*byExpect{}
+	var names []string
+	for _, x := range vlib.List(obs, "bys") {
+		m := vlib.Rec(x)
+		be := &byExpect{name: vlib.Str(m, "by")}
+		switch be.name {
+		case "k1":
+			be.tags = []string{"k1"}
+		case "k2":
+			be.tags = []string{"k2"}
+		case "k1k2":
+			be.tags = []string{"k1", "k2"}
+		default:
+			sk.inconclusive(fmt.Sprintf("behaviour %d step %d: unknown group-by %q", b, step, be.name))
+			return
+		}
+		for _, g := range vlib.List(m, "groups") {
+			gm := vlib.Rec(g)
+			be.ges = append(be.ges, groupExpect{g1: vlib.Int(gm, "g1"), g2: vlib.Int(gm, "g2"), e: parseResult(gm["res"])})
+		}
+		if len(be.ges) != distinctKeys(rows, be.tags) {
+			sk.inconclusive(fmt.Sprintf("behaviour %d step %d: spec has %d groups by %s, replayer %d", b, step, len(be.ges), be.name, distinctKeys(rows, be.tags)))
+			return
+		}
+		bys[be.name] = be
+		names = append(names, be.name)
+	}
+	sort.Strings(names)
+	arrival := fmtRows(rows)
+	distributed := func(q query) ([]*measurev1.DataPoint, *cluster, error) {
+		c := &cluster{cache: map[int][]byte{}, rowsOf: rowsOf, nodes: nodesOf(shards, reps[rnd.Intn(len(reps))], rnd), entityKeys: true}
+		dps, err := runLiaison(q.request(), c)
+		sk.inc("plan_executions")
+		sk.add("plan_executions", c.nodeCalls)
+		unb := 0
+		for i, l := range c.nodeLimits {
+			if l == math.MaxUint32 && c.nodeOffset[i] == 0 {
+				unb++
+			}
+		}
+		sk.add("ord_node_requests_unbounded", unb)
+		sk.add("ord_node_requests_bounded", len(c.nodeLimits)-unb)
+		return dps, c, err
+	}
+	ctxDist := func(what string, c *cluster) func() string {
+		return func() string {
+			return fmt.Sprintf("%s, entity (k1,k2), arrival order %s, answers from (shard,replica) %v; the node requests carried limit %v offset %v and were answered with %v partial(s)",
+				what, arrival, c.nodes, c.nodeLimits, c.nodeOffset, c.nodeSent)
+		}
+	}
+	ctxAlone := func(what, entity, method string) func() string {
+		return func() string {
+			if method != "" {
+				method = ", group-by method " + method
+			}
+			return fmt.Sprintf("stand-alone %s, entity %s, arrival order %s%s", what, entity, arrival, method)
+		}
+	}
+	star := [2]string{"*", "*"}
+	// 1. GROUP BY k1 / k2 / (k1,k2) without a client page
+	okBy := map[string]bool{}
+	for _, name := range names {
+		be := bys[name]
+		okBy[name] = true
+		cut := runsOf(rows, be.tags) > len(be.ges)
+		if cut {
+			sk.inc("ord_states_series_order_cuts_groups:" + name)
+		}
+		for f := 0; f < 5; f++ {
+			q := query{f: f, grouped: true, by: be.tags}
+			what := fmt.Sprintf("GROUP BY %s %s", fmtKey(star, be.tags), fnames[f])
+			// the stand-alone server, entity (k1,k2)
+			idps, planStr, err := runNodePlan(q.request(), false, rows, false, true)
+			if err != nil {
+				fail("stand-alone plan, entity (k1,k2), group by "+name, err)
+				return
+			}
+			sk.inc("plan_executions")
+			sk.inc("ord_entity2_groupby_plans:" + name + ":" + groupByMethod(planStr))
+			if name == "k1" && cut {
+				sk.inc("ord_entity2_prefix_groupby_plans_nonadjacent")
+			}
+			okBy[name] = checkGroupPage(sk, b, step, "plan-entity2-standalone-groupby-"+name, f, be.tags, dpsOf(idps), be.ges, len(be.ges),
+				ctxAlone(what, "(k1,k2)", groupByMethod(planStr))) && okBy[name]
+			// the stand-alone server, entity (id): no part of the key is an entity tag
+			idps, err = runNode(q.request(), false, rows, false, false)
+			if err != nil {
+				fail("stand-alone plan, entity (id), group by "+name, err)
+				return
+			}
+			sk.inc("plan_executions")
+			okBy[name] = checkGroupPage(sk, b, step, "plan-standalone-groupby-"+name, f, be.tags, dpsOf(idps), be.ges, len(be.ges), ctxAlone(what, "(id)", "")) && okBy[name]
+			// coordinator + data nodes, entity (k1,k2)
+			dps, c, err := distributed(q)
+			if err != nil {
+				fail("distributed plan, entity (k1,k2), group by "+name, err)
+				return
+			}
+			sk.inc("ord_entity2_distributed_groupby_plans:" + name)
+			okBy[name] = checkGroupPage(sk, b, step, "plan-entity2-distributed-groupby-"+name, f, be.tags, dps, be.ges, len(be.ges), ctxDist(what, c)) && okBy[name]
+		}
+	}
+	// 2. the same with a client page (limit, offset), without and with a ranking
+	for _, x := range vlib.List(obs, "pages") {
+		m := vlib.Rec(x)
+		be := bys[vlib.Str(m, "by")]
+		if be == nil || !okBy[be.name] {
+			continue // a page over wrong groups only echoes the mismatch above
+		}
+		lim, off, n := vlib.Int(m, "lim"), vlib.Int(m, "off"), vlib.Int(m, "n")
+		more := false
+		for _, s := range shards {
+			if distinctKeys(rowsOf(s), be.tags) > lim+off {
+				more = true
+			}
+		}
+		// COUNT shows every lost partial; one more function (seeded)
+		for _, f := range []int{fCOUNT, []int{fSUM, fMIN, fMAX, fMEAN}[rnd.Intn(4)]} {
+			q := query{f: f, grouped: true, by: be.tags, limit: uint32(lim), offset: uint32(off)}
+			what := fmt.Sprintf("GROUP BY %s %s LIMIT %d OFFSET %d", fmtKey(star, be.tags), fnames[f], lim, off)
+			idps, err := runNode(q.request(), false, rows, false, true)
+			if err != nil {
+				fail("stand-alone paged plan", err)
+				return
+			}
+			sk.inc("plan_executions")
+			checkGroupPage(sk, b, step, "plan-entity2-standalone-groupby-page", f, be.tags, dpsOf(idps), be.ges, n, ctxAlone(what, "(k1,k2)", ""))
+			dps, c, err := distributed(q)
+			if err != nil {
+				fail("distributed paged plan", err)
+				return
+			}
+			sk.inc("ord_limited_distributed_groupby_plans")
+			if more {
+				sk.inc("ord_limited_distributed_groupby_plans_node_holds_more_groups_than_page")
+			}
+			checkGroupPage(sk, b, step, "plan-entity2-distributed-groupby-page", f, be.tags, dps, be.ges, n, ctxDist(what, c))
+		}
+		// TOP / BOTTOM m over the groups' SUM, then the page: all the ranks, or cfg.ranks of them (seeded)
+		ranks := vlib.List(m, "ranks")
+		pick := rnd.Perm(len(ranks))
+		if cfg.ranks > 0 && cfg.ranks < len(pick) {
+			pick = pick[:cfg.ranks]
+		}
+		sort.Ints(pick)
+		for _, ri := range pick {
+			t, _ := ranks[ri].([]any)
+			if len(t) != 3 {
+				sk.inconclusive(fmt.Sprintf("behaviour %d step %d: malformed rank %v", b, step, ranks[ri]))
+				return
+			}
+			dir, _ := t[1].(string)
+			q := query{f: fSUM, grouped: true, by: be.tags, topN: vlib.AsInt(t[0]), bottom: dir == "bottom", limit: uint32(lim), offset: uint32(off)}
+			var want []int64
+			vl, _ := t[2].([]any)
+			for _, v := range vl {
+				want = append(want, int64(vlib.AsInt(v)))
+			}
+			what := fmt.Sprintf("%s %d of SUM GROUP BY %s LIMIT %d OFFSET %d", dir, q.topN, fmtKey(star, be.tags), lim, off)
+			idps, err := runNode(q.request(), false, rows, false, true)
+			if err != nil {
+				fail("stand-alone paged top plan", err)
+				return
+			}
+			sk.inc("plan_executions")
+			checkGroupTopBy(sk, b, step, "plan-entity2-standalone-group-top-page", be.tags, dpsOf(idps), want, be.ges, ctxAlone(what, "(k1,k2)", ""))
+			dps, c, err := distributed(q)
+			if err != nil {
+				fail("distributed paged top plan", err)
+				return
+			}
+			sk.inc("ord_limited_distributed_top_plans")
+			if more {
+				sk.inc("ord_limited_distributed_top_plans_node_holds_more_groups_than_page")
+			}
+			checkGroupTopBy(sk, b, step, "plan-entity2-distributed-group-top-page", be.tags, dps, want, be.ges, ctxDist(what, c))
+		}
+	}
+}
+
+// the seeded choices of a state depend on the state only (and VERIF_SEED): a state re-executed alone, in another
+// behaviour file, makes the same choices
+func stateSeed(rows []row) int64 {
+	h := int64(1469598103934665603)
+	for _, r := range rows {
+		for _, x := range []int64{r.v, int64(r.s), int64(r.g1), int64(r.g2)} {
+			h = (h ^ (x + 7)) * 1099511628211
+		}
+	}
+	return cfg.seed*1000003 + h
+}
+
+func replayOrd(sk *sink, b vlib.Behaviour) {
+	var rows []row
+	for i, st := range b.States {
+		if i > 0 {
+			ev := vlib.Map(st, "last")
+			if vlib.Str(ev, "op") != "row" {
+				sk.inconclusive(fmt.Sprintf("behaviour %d step %d: unexpected op %q", b.ID, i, vlib.Str(ev, "op")))
+				return
+			}
+			rows = append(rows, row{id: len(rows), v: int64(vlib.Int(ev, "v")), s: vlib.Int(ev, "s"), g1: vlib.Int(ev, "g1"), g2: vlib.Int(ev, "g2")})
+			sk.inc("steps")
+		}
+		obs := vlib.Map(st, "obs")
+		if obs == nil {
+			continue // this state was compared in an earlier behaviour (shared prefix)
+		}
+		sk.inc("states_compared")
+		if n := vlib.Int(obs, "n"); n != len(rows) {
+			sk.inconclusive(fmt.Sprintf("behaviour %d step %d: spec has %d rows, replayer %d", b.ID, i, n, len(rows)))
+			return
+		}
+		if cfg.layers["plan"] {
+			checkOrd(sk, b.ID, i, rows, obs, rand.New(rand.NewSource(stateSeed(rows))))
+		}
 	}
 }
 
@@ -1654,7 +2137,7 @@ func extremes(sk *sink, n int, only int) {
 // ---------------------------------------------------------------------------------------------
 
 func main() {
-	mode := flag.String("mode", "agg", "agg|top|extremes")
+	mode := flag.String("mode", "agg", "agg|ord|top|extremes")
 	in := flag.String("in", "", "behaviour file")
 	out := flag.String("out", "", "result file")
 	k1 := flag.String("k1", "a", "strings of the key-1 tokens")
@@ -1666,8 +2149,9 @@ func main() {
 	n := flag.Int("n", 2000, "extreme cases")
 	only := flag.Int("only", -1, "extremes: run only this case")
 	workers := flag.Int("workers", 12, "parallel replays")
+	ranks := flag.Int("ranks", 0, "ord: rankings (TOP/BOTTOM m) tried per client page, seeded choice; 0 = all")
 	flag.Parse()
-	cfg = config{k1: strings.Split(*k1, ","), k2: strings.Split(*k2, ","), maxRep: *maxRep, intMax: *intMax, intMin: *intMin, layers: map[string]bool{}, seed: vlib.Seed()}
+	cfg = config{k1: strings.Split(*k1, ","), k2: strings.Split(*k2, ","), maxRep: *maxRep, intMax: *intMax, intMin: *intMin, layers: map[string]bool{}, seed: vlib.Seed(), ranks: *ranks}
 	for _, l := range strings.Split(*layers, ",") {
 		cfg.layers[l] = true
 	}
@@ -1696,9 +2180,12 @@ func main() {
 								sk.inconclusive(fmt.Sprintf("behaviour %d: replayer panic: %v", b.ID, r))
 							}
 						}()
-						if *mode == "top" {
+						switch *mode {
+						case "top":
 							replayTop(sk, b)
-						} else {
+						case "ord":
+							replayOrd(sk, b)
+						default:
 							replayAgg(sk, b)
 						}
 					}()
